@@ -187,7 +187,8 @@ Definition load (explicit : bool) (f : option cfg) : option cfg :=
 Inductive cmd := CSet (k t : string) | CGet (k : string) | CReset.
 Record obs := { o_rc : nat; o_out : option string; o_file : option cfg }.
 
-Definition ckey (q : cquirks) (k : string) : string := if q_cli_raw_key q then k else norm k.
+Definition ckey_set (q : cquirks) (k : string) : string := if q_cli_raw_key q && negb set_normalises_key then k else norm k.
+Definition ckey_get (q : cquirks) (k : string) : string := if q_cli_raw_key q && negb get_normalises_key then k else norm k.
 
 Definition step (q : cquirks) (explicit : bool) (f : option cfg) (c : cmd) : obs :=
   match load explicit f with
@@ -196,11 +197,11 @@ Definition step (q : cquirks) (explicit : bool) (f : option cfg) (c : cmd) : obs
     match c with
     | CSet k t =>
       let v := convert t in
-      let conf' := upd (ckey q k) v conf in
+      let conf' := upd (ckey_set q k) v conf in
       if valid conf' then Build_obs 0 (Some (set_msg_prefix ++ k ++ set_msg_mid ++ show v)%string) (Some conf')
       else Build_obs set_reject_exit None f
     | CGet k =>
-      match lookup (ckey q k) conf with
+      match lookup (ckey_get q k) conf with
       | Some v => Build_obs 0 (Some (show v)) f
       | None => Build_obs get_missing_exit None f
       end
